@@ -60,6 +60,13 @@ Theorem C07_forin_nodup : forall s a, reachable s -> NoDup (forin (length (s_hea
 Proof. intros s a R. exact (proj1 (forin_nodup _ (reachable_nodup s R) _ a [])). Qed.
 Print Assumptions C07_forin_nodup.
 
+(* for-in is complete: an enumerable property found by [[GetProperty]] anywhere on the prototype
+   chain (Object.prototype included) is visited *)
+Theorem C07_forin_complete : forall h a n p,
+  get_property (length h) h a n = Some p -> p_enum p = true -> In n (forin (length h) h a []).
+Proof. exact forin_complete. Qed.
+Print Assumptions C07_forin_complete.
+
 (* after a successful delete the name is no own property and is not enumerated *)
 Theorem C07_deleted_not_enumerated : forall o n o',
   delete_own o n = (o', true) ->
@@ -127,6 +134,13 @@ Theorem C07_forin_delete_nodup : forall h cur o at_n a2 del_n,
 Proof. exact forin_delete_nodup. Qed.
 Print Assumptions C07_forin_delete_nodup.
 
+(* the for-in loop of cmplEvaluateNodeForInStatement visits every enumerable property that
+   [[GetProperty]] finds from the enumerated object, whichever chain member holds it *)
+Theorem C07_model_forin_complete : forall fuel h a n p,
+  m_get_property fuel h a n = Some p -> enumerable (sm p) = true -> In n (m_forin fuel h a).
+Proof. exact m_forin_complete. Qed.
+Print Assumptions C07_model_forin_complete.
+
 (* ---- otto's remaining deviations, as refutations with witnesses ---- *)
 Definition num (z : Z) := VNum z.
 Definition dsc v w g s e c := mkR v w g s e c.
@@ -161,19 +175,19 @@ Definition frozen_history : list op :=
   [OPut 0 0 (num 1); ODefine 0 1 (dsc None None (GFn 0) GAbsent (Some true) None); OFreeze 0].
 
 Example C07_frozen_hyp_met :
-  exists o, nth_error (s_heap (exec init frozen_history)) 0 = Some o /\ is_frozen o = true /\
+  exists o, nth_error (s_heap (exec init frozen_history)) 1 = Some o /\ is_frozen o = true /\
             lookup (o_props o) 0 = Some (PData (num 1) false true false).
 Proof. eexists. vm_compute. auto. Qed.
 
 Example C07_nonwritable_hyp_met :
-  own_prop (exec init frozen_history) 0 0 = Some (PData (num 1) false true false) /\
-  ext_of (exec init frozen_history) 0 = Some false /\ reachable (exec init frozen_history).
+  own_prop (exec init frozen_history) 1 0 = Some (PData (num 1) false true false) /\
+  ext_of (exec init frozen_history) 1 = Some false /\ reachable (exec init frozen_history).
 Proof. split; [reflexivity | split; [reflexivity | exists frozen_history; reflexivity]]. Qed.
 
 Example C07_inherited_accessor_hyp_met :
   let h := s_heap (exec init [ODefine 0 0 (dsc None None GAbsent (GFn 1) None None); OCreate 1 (Some 0%nat) None]) in
-  exists o, nth_error h 3 = Some o /\ lookup (o_props o) 0 = None /\ o_proto o = Some 0%nat /\
-            get_property (length h) h 0 0 = Some (PAcc None (Some 1) false false).
+  exists o, nth_error h 4 = Some o /\ lookup (o_props o) 0 = None /\ o_proto o = Some 1%nat /\
+            get_property (length h) h 1 0 = Some (PAcc None (Some 1) false false).
 Proof. eexists. vm_compute. auto. Qed.
 
 Example C07_define_refines_hyp_met :
@@ -182,10 +196,15 @@ Example C07_define_refines_hyp_met :
 Proof. repeat split; try reflexivity; try exact I; apply valid_b; reflexivity. Qed.
 
 Example C07_forin_delete_hyp_met :
-  let h := ms_heap (fst (fst (mstep (fst (fst (mstep minit (OPut 0 0 (num 1))))) (OPut 0 1 (num 2))))) in
+  let h := ms_heap (fst (fst (mstep (fst (fst (mstep minit (OPut 3 0 (num 1))))) (OPut 3 1 (num 2))))) in
   exists o, nth_error h 0 = Some o /\ m_proto o = None /\ m_own_names o = [0; 1] /\
             snd (m_forin_del (length h) h 0 0 0 0 []) = [0; 1].
 Proof. eexists. vm_compute. auto. Qed.
+
+Example C07_forin_complete_hyp_met :
+  let h := s_heap (exec init [OPut 3 0 (num 1)]) in
+  get_property (length h) h 1 0 = Some (PData (num 1) true true true) /\ In 0 (forin (length h) h 1 []).
+Proof. vm_compute. auto. Qed.
 
 Example C07_delete_hyp_met :
   exists o', delete_own (mkO None true [(0, PData (num 1) true true true)]) 0 = (o', true).
